@@ -57,6 +57,7 @@ func (d *Doc) Clone() *Doc {
 //	num    number stored; date datetime stored; flag boolean stored
 //	notv   text  "simple", no term vectors, not stored (optimisable unadorned paths)
 //	ver    number stored (version marker used by the writer workloads)
+//	blob   text stored only (not indexed): a document may consist of stored fields alone
 func Mapping() *mapping.IndexMappingImpl {
 	m := bleve.NewIndexMapping()
 	dm := bleve.NewDocumentStaticMapping()
@@ -105,6 +106,14 @@ func Mapping() *mapping.IndexMappingImpl {
 	flag.IncludeInAll = false
 	dm.AddFieldMappingsAt("flag", flag)
 
+	blob := bleve.NewTextFieldMapping()
+	blob.Store = true
+	blob.Index = false
+	blob.IncludeTermVectors = false
+	blob.IncludeInAll = false
+	blob.DocValues = false
+	dm.AddFieldMappingsAt("blob", blob)
+
 	ver := bleve.NewNumericFieldMapping()
 	ver.Store = true
 	ver.IncludeInAll = false
@@ -133,6 +142,23 @@ func GenSentence(g *rng.Rand, maxWords int) string {
 // GenDoc makes a document for id; every field is optional.
 func GenDoc(g *rng.Rand, id string) *Doc {
 	f := map[string]any{}
+	if g.Chance(1, 10) {
+		// a document that produces no index terms at all: stored-only content and/or a
+		// text field that analyses to nothing (stop words, empty string)
+		switch g.Intn(3) {
+		case 0:
+			f["blob"] = GenSentence(g, 3)
+		case 1:
+			f["blob"] = GenSentence(g, 2)
+			f["title"] = rng.Pick(g, []string{"the", "and the", "", "of the and"})
+		default:
+			f["title"] = rng.Pick(g, []string{"the", "", "a an the"})
+		}
+		return &Doc{ID: id, Fields: f}
+	}
+	if g.Chance(1, 6) {
+		f["blob"] = GenSentence(g, 3)
+	}
 	if g.Chance(8, 10) {
 		f["title"] = GenSentence(g, 4)
 	}
